@@ -10,13 +10,15 @@ import sched
 
 LEVEL = "proof"
 TRUSTED = ["Model/Ctx.v models the colour context (the only state shared between encodes) as a per-thread map; Python-level atomicity of "
-           "dict/list operations and everything outside rtflite (polars, Pillow, pydantic) is outside the model",
+           "dict/list operations, state of the string-width measurement and everything outside rtflite (polars, Pillow, pydantic) are outside "
+           "the model; measurement state is exercised by the two-font schedules (preemption around every call into the string-width module)",
            "harness/sched.py: baton scheduler preempting at sys.settrace 'call' events inside /repo/src/rtflite; harness/hist.py context recorder"]
 ASSUMPTIONS = ["preemption granularity is the function-call boundary inside the library, as the property's quantifier states; "
                "real OS-level interleavings inside one function body are not explored",
                "threads are real threading.Thread objects; only one runs at a time (deterministic replay)"]
 
-DOCS = [2, 3, 4, 5, 7, 0]     # pool documents used by the threads: coloured single x2, multi-section, figure, paginated, plain
+DOCS = [2, 3, 4, 5, 7, 0, 15, 17]   # pool documents used by the threads: coloured single x2, multi-section, figure, paginated, plain,
+                                    # and the same tight-paged frame measured in Times 10pt and in Courier New 14pt
 
 
 def model_case(n, task, trace, pals):
@@ -79,6 +81,16 @@ def run(ctx):
                     tasks.append({"docs": [a, b], "preempts": [[0, k, 1]], "first": 0})
                 for k in points(b, (a, b) in dense_pairs):
                     tasks.append({"docs": [a, b], "preempts": [[1, k, 0]], "first": 1})
+            # (i') documents measured in different fonts: one preemption around every call into the string-width module
+            for a, b, first in ((15, 17, 0), (17, 15, 0)):
+                ms = set()
+                for m in prof[a]["measure"]:
+                    ms.update(k for k in (m, m + 1) if 1 <= k <= prof[a]["calls"])
+                ms = sorted(ms)
+                if not thorough and len(ms) > 160:
+                    ms = sorted(r.sample(ms, 160))
+                for k in ms:
+                    tasks.append({"docs": [a, b], "preempts": [[0, k, 1]], "first": 0})
             # (ii) two and three preemptions, two and three threads, sampled
             for _ in range(80 if not thorough else 3000):
                 nthreads = r.choice([2, 3])
@@ -124,7 +136,8 @@ def run(ctx):
             stats["traces_ok"] += 1
     coverage = {
         "evaluations": stats["schedules"], "distinct_nontrivial": sum(v for k, v in npre.items() if k > 0),
-        "rule": "schedules of 2 and 3 threads encoding pool documents (coloured single-section x2, multi-section, figure, paginated, plain); "
+        "rule": "schedules of 2 and 3 threads encoding pool documents (coloured single-section x2, multi-section, figure, paginated, plain, one frame in two fonts); "
+                "for the two-font pair one preemption around every call into the string-width module; "
                 "one preemption at every library call boundary (thorough: exhaustive for three pairs, both directions; quick: the boundaries "
                 "around every context read/write plus a sample); two and three preemptions sampled; distinct = schedules in which a preemption happened",
         "library_calls_per_encode": {str(d): prof[d]["calls"] for d in DOCS},
